@@ -312,10 +312,16 @@ func Evaluate(c Case, res subproc.Result) (f *Finding, obs Obs, harness string) 
 func Main(args []string) {
 	fs := flag.NewFlagSet("C08", flag.ExitOnError)
 	replay := fs.String("replay", "", "replay file")
-	maxLen := fs.Int("len", 3, "maximum number of identity changes")
+	maxLen := fs.Int("len", 0, "maximum number of identity changes (default: 3, thorough tier 4)")
 	fs.Parse(args)
 	tier := evidence.Tier()
 	seed := evidence.Seed()
+	if *maxLen == 0 {
+		*maxLen = 3
+		if tier == "thorough" {
+			*maxLen = 4
+		}
+	}
 	start := time.Now()
 	scratch := world.ScratchRoot()
 	defer os.RemoveAll(scratch)
